@@ -11,12 +11,12 @@ import (
 
 // Sorts maps Go types to SMT sorts for one obligation universe.
 type Sorts struct {
-	b       *smt.Builder
-	fp      bool // floats as IEEE (true) or reals (false)
-	memo    map[string]string
-	structs map[string]*structInfo
-	arrays  map[string]*arrayInfo
-	tags    map[string]int // dynamic type tags
+	b        *smt.Builder
+	fp       bool // floats as IEEE (true) or reals (false)
+	memo     map[string]string
+	structs  map[string]*structInfo
+	arrays   map[string]*arrayInfo
+	tags     map[string]int // dynamic type tags
 	tagTypes map[int]types.Type
 }
 
